@@ -472,7 +472,9 @@ class Runner:
         if isinstance(cond, (bool, np.bool_)):
             zc = z3.BoolVal(bool(cond))
         else:
-            zc = z3.simplify(S._zb(cond))
+            raw = S._zb(cond)
+            ctx.activate(raw)
+            zc = z3.simplify(raw)
         rec = [site, zc, False]
         A.reqs.append(rec)
         if z3.is_true(zc):
@@ -625,10 +627,13 @@ class Runner:
         # cross-validate this path against the real code
         Ctx.cur = ctx
         try:
+            cached = ctx.model
             try:
                 models = list(self._witness_models(ctx))
             except (S.Unsupported, z3.Z3Exception):
                 models = []
+            if not models and cached is not None:
+                models = [(cached, False)]      # the model that steered the last decision of this path
             if not models:
                 res.errors.append("no model for path")
                 return
